@@ -459,6 +459,9 @@ def check(run):
     check_layout_dependent_flatten(run, A, ('pb_bss.distribution.', 'pb_bss.utils'))
     check_initial_expansion(run, A)
     check_rank_dispatch(run, A)
+    # a slice of a stack fitted alone and inside the stack sees the same observations: a block-wise loop covers its axis whatever the size of the stack
+    from ..opt import check_block_partitions
+    check_block_partitions(run, A, ('pb_bss.distribution.',))
     run.explanation = (
         'Leading-axes polymorphism decided structurally for every distribution model / trainer and mixture trainer documented with `...`: literal axes count from the right and '
         'axis-less reductions occur only in listed scalar idioms; every value that escapes (stored field / return value) from a function that flattens leading axes with reshape(-1, ...) '
